@@ -4,6 +4,7 @@ import Logrange.Model.JournalW
 import Logrange.Model.WriteLoopM
 import Logrange.Model.JIterObs
 import Logrange.Model.WriteReadE2E
+import Logrange.Model.WritersPos
 /-! Model driver for C01 (acknowledged writes are read back intact, once, in order). Requests
 (byte strings hex, `-` = empty; timestamps as the decimal uint64 image of the int64):
 
@@ -24,6 +25,8 @@ import Logrange.Model.WriteReadE2E
       (identity printer), result pages of 3 events encoded and decoded — for journals with records x chunks <= 60000; larger ones
       are answered by the flat form `readBack` (same answers: `E2E.iterLabels_eq`, `fetchDecode_all`)
 * `w.layout <part>`                               → `<count of chunk 1> <count of chunk 2> …`
+* `wpos.locked <noEvent 0|1>`                      → `1` | `0`: does a caller of `Service.Write` with this `noEvent` hold the per-partition write
+      lock (`WritersLts.takesLock`, regenerated fact `writeLockScope`)? `0` = the late count read can shift its positions (F-C01-901)
 * `tail.probe <old> <fuel> <polls> <count script…>` → `jobs=<probe> tail=<probe>`: the library journal iterator's observation model and
       the tail model on the scripted two-chunk journal; probe = `eof=<0|1>,pos=<cid>:<idx>,got=<indices joined by .|->,grew=<0|1>`
 -/
@@ -113,6 +116,7 @@ def step (s : St) (toks : List String) : St × String :=
   | "tail.probe" :: old :: fuel :: polls :: script =>
     let sc := script.map String.toNat!
     (s, s!"jobs={showProbe (JIterObs.probe old.toNat! sc fuel.toNat! polls.toNat!)} tail={showProbe (JIterObs.Tail.probe sc fuel.toNat! polls.toNat!)}")
+  | ["wpos.locked", ne] => (s, if WritersLts.takesLock (ne == "1") then "1" else "0")
   | ["ev.marshal", ts, m, f] =>
     let e : Event := ⟨ts.toNat!, unhex m, unhex f⟩
     (s, s!"{hex e.marshal} {e.writableSize}")
